@@ -707,7 +707,6 @@ def _run_micro(world: World, plan):
     # ------------------------------------------------------------------ oracle
     # (1) C03.edge: the notified sequence is a path in the graph, chained, ending in the state the transfer has
     current = 'VIRGIN'
-    in_flight = 0
     edges_seen = []
     for ev in events:
         kind = ev[0]
